@@ -115,6 +115,11 @@ var records = map[string]*recordCfg{
 		coqType: "TailBitmap.tb", ctor: "TailBitmap.mkTB", fields: []string{"Offset", "Words", "reclaimed"},
 		getter: map[string]string{"Offset": "TailBitmap.Offset", "Words": "TailBitmap.Words", "reclaimed": "TailBitmap.reclaimed"},
 	},
+	// harness/trans/testdata/tx (the translator's own tests)
+	"tx.Counter": {
+		coqType: "TxCounter.t", ctor: "TxCounter.mk", fields: []string{"n", "lim"},
+		getter: map[string]string{"n": "TxCounter.n", "lim": "TxCounter.lim"},
+	},
 	"bitword.bitWord": {
 		coqType: "Bitword.bitWord", ctor: "Bitword.Build_bitWord", fields: []string{"width", "byteCap", "wordMask"},
 		getter: map[string]string{"width": "Bitword.width", "byteCap": "Bitword.byteCap", "wordMask": "Bitword.wordMask"},
@@ -135,7 +140,8 @@ func init() {
 	for _, s := range strings.Fields(`u8 u16 u32 u64 i8 i16 i32 i64 shl8 shl16 shl32 shl64 sshl8 sshl16 sshl32 sshl64
 	 shr8 shr16 shr32 shr64 sar8 sar16 sar32 sar64 not8 not16 not32 not64 popcount lz32 lz64 tz tz64 tz8 bitlen Mask RMask
 	 MaskUpto RMaskUpto Bit RBit nthZ zlen tblZ fst snd negb Some None true false Z list bool option tt unit eqb
-	 if then else let in fun match with end forall exists fix cofix return as at using where Type Prop Set`) {
+	 if then else let in fun match with end forall exists fix cofix return as at using where Type Prop Set by do of struct
+	 SProp for mod land lor lxor`) {
 		reserved[s] = true
 	}
 }
@@ -773,6 +779,17 @@ func (t *ftr) instr(in ssa.Instruction, cur *string) wrapper {
 			t.name[in] = t.val(in.X)
 			return id
 		}
+		// the argument of panic(...): the value is irrelevant, the panic is None
+		onlyPanic := len(*in.Referrers()) > 0
+		for _, r := range *in.Referrers() {
+			if _, ok := r.(*ssa.Panic); !ok {
+				onlyPanic = false
+			}
+		}
+		if onlyPanic {
+			t.ignored[in] = true
+			return id
+		}
 		bail("interface value %s", in)
 	case *ssa.Extract:
 		tup := in.Tuple.Type().(*types.Tuple)
@@ -918,6 +935,9 @@ func (t *ftr) call(in *ssa.Call, let, bind func(ssa.Value, string) wrapper) wrap
 			return bind(in, r.Coq+" "+argv())
 		}
 		return let(in, r.Coq+" "+argv())
+	}
+	if callee == t.fn {
+		bail("recursion")
 	}
 	bail("call of %s, which is neither listed nor mapped", sn)
 	return nil
@@ -1293,9 +1313,10 @@ func splitList(s string) []string {
 	return out
 }
 
-func main() { os.Exit(run()) }
+func main() { os.Exit(run(os.Args[1:])) }
 
-func run() int {
+func run(args []string) int {
+	flag := flag.NewFlagSet("trans", flag.ContinueOnError)
 	out := flag.String("o", "", "Coq file to write (default: stdout)")
 	js := flag.String("json", "", "per-function results (definition text, hash, status) as JSON")
 	dump := flag.Bool("dump", false, "print the SSA form of the targets to stderr")
@@ -1305,7 +1326,9 @@ func run() int {
 	pk := flag.String("pkgs", "", "packages (tests)")
 	tg := flag.String("targets", "", "targets (tests)")
 	all := flag.Bool("all", false, "try every function of the loaded packages (exploration: which functions are translatable?)")
-	flag.Parse()
+	if err := flag.Parse(args); err != nil {
+		return 2
+	}
 	if *mod != "" {
 		modPath = *mod
 	}
